@@ -17,6 +17,10 @@ from pv.props import c01, sem_common as S
 from pv.ref import extract, pddl, sexpr
 from pv.runner import Res
 
+# thorough tier: the same streams under three string-hash seeds (the iteration order of the library's
+# string-hashed sets is part of the implicit schedule)
+CONFIGS_THOROUGH = {"hash0": {"PYTHONHASHSEED": "0"}, "hash1": {"PYTHONHASHSEED": "1"}, "hash2": {"PYTHONHASHSEED": "2"}}
+
 ID = "C08"
 RULE = ("fragment-F domains with numeric constants on the exporter's grid (2 decimals in conditions, 4 in effects) and "
         "every domain file shipped under tests/ that the library parses; export repeated under permuted iteration "
@@ -287,6 +291,6 @@ def gen(ch, tier):
 
 
 def plan(tier):
-    n = 1500 if tier == "quick" else 30000
-    return {"exhaustive": [(i, 16) for i in range(16)], "streams": {"main": n}, "shards": 16,
+    n = 1500 if tier == "quick" else 10000      # thorough: per hash-seed configuration
+    return {"exhaustive": [(i, 16) for i in range(16)], "streams": {"main": n}, "shards": 16 if tier == "quick" else 5,
             "exhaustive_is_complete": True, "exhaustive_note": "every domain file shipped under tests/"}
